@@ -51,6 +51,12 @@ pub struct DiskHist {
     pub pre: Vec<DOp>,
     pub reopen: bool,
     pub post: Vec<DOp>,
+    /// configured size limits (None = the defaults: 1 GiB / 100 000 files). Small limits put the
+    /// cache "close to full", where an implementation may take a different write path.
+    #[serde(default)]
+    pub max_disk_bytes: Option<u32>,
+    #[serde(default)]
+    pub max_files: Option<u16>,
 }
 
 fn op_strategy() -> impl Strategy<Value = DOp> {
@@ -62,17 +68,31 @@ fn op_strategy() -> impl Strategy<Value = DOp> {
 }
 
 pub fn strategy() -> BoxedStrategy<DiskHist> {
-    (prop_oneof![2 => Just(0u8), 1 => Just(1u8), 1 => Just(2u8)], proptest::collection::vec(op_strategy(), 0..5), any::<bool>(), proptest::collection::vec(op_strategy(), 1..4))
-        .prop_map(|(levels, pre, reopen, post)| DiskHist { levels, pre, reopen, post })
+    (
+        prop_oneof![2 => Just(0u8), 1 => Just(1u8), 1 => Just(2u8)],
+        proptest::collection::vec(op_strategy(), 0..5),
+        any::<bool>(),
+        proptest::collection::vec(op_strategy(), 1..4),
+        prop_oneof![3 => Just(None), 1 => Just(Some(1u32)), 2 => (16u32..600).prop_map(Some), 1 => (4000u32..14000).prop_map(Some)],
+        prop_oneof![4 => Just(None), 1 => (1u16..4).prop_map(Some)],
+    )
+        .prop_map(|(levels, pre, reopen, post, max_disk_bytes, max_files)| DiskHist { levels, pre, reopen, post, max_disk_bytes, max_files })
         .boxed()
 }
 
-fn config(dir: &Path, levels: u8) -> DiskCacheConfig {
-    DiskCacheConfig { default_ttl: Some(Duration::from_secs(3600)), use_subdirectories: levels > 0, subdirectory_levels: levels as usize, ..DiskCacheConfig::new(dir) }
+fn config(dir: &Path, h: &DiskHist) -> DiskCacheConfig {
+    let mut c = DiskCacheConfig { default_ttl: Some(Duration::from_secs(3600)), use_subdirectories: h.levels > 0, subdirectory_levels: h.levels as usize, ..DiskCacheConfig::new(dir) };
+    if let Some(b) = h.max_disk_bytes {
+        c.max_disk_bytes = Some(b as usize);
+    }
+    if let Some(f) = h.max_files {
+        c.max_files = f as usize;
+    }
+    c
 }
 
-fn open(dir: &Path, levels: u8) -> Result<DiskCache<SKey>, String> {
-    DiskCache::new(config(dir, levels)).map_err(|e| format!("DiskCache::new: {e}"))
+fn open(dir: &Path, h: &DiskHist) -> Result<DiskCache<SKey>, String> {
+    DiskCache::new(config(dir, h)).map_err(|e| format!("DiskCache::new: {e}"))
 }
 
 fn apply(c: &DiskCache<SKey>, op: &DOp) -> Result<(), String> {
@@ -97,13 +117,13 @@ impl Routine for Disk {
     }
 
     fn execute(h: &DiskHist, dir: &Path, rec: &Recorder) -> Result<(), String> {
-        let mut c = open(dir, h.levels)?;
+        let mut c = open(dir, h)?;
         for op in &h.pre {
             apply(&c, op)?;
         }
         if h.reopen {
             drop(c);
-            c = open(dir, h.levels)?;
+            c = open(dir, h)?;
         }
         rec.begin_crash_phase();
         for op in &h.post {
@@ -115,7 +135,7 @@ impl Routine for Disk {
 
     fn observe(h: &DiskHist, dir: &Path) -> Result<Obs, String> {
         let rt = crate::rt();
-        let c = open(dir, h.levels)?;
+        let c = open(dir, h)?;
         let mut o = Obs::new();
         // before any get(): a fresh instance counts the files on disk, temp files excluded
         let size = rt.block_on(c.size()).map_err(|e| format!("size: {e}"))?;
@@ -136,7 +156,7 @@ impl Routine for Disk {
         // written before) and removes the last key; then a fresh instance observes
         Some((|| {
             let rt = crate::rt();
-            let c = open(dir, h.levels)?;
+            let c = open(dir, h)?;
             for (i, k) in KEYS.iter().enumerate() {
                 rt.block_on(c.put(SKey((*k).into()), bytes::Bytes::from(vec![b'a' + i as u8]))).map_err(|e| format!("follow-up put({k}): {e}"))?;
             }
@@ -155,6 +175,9 @@ impl Routine for Disk {
     fn hist_classes(h: &DiskHist) -> Vec<&'static str> {
         let mut v = Vec::new();
         v.push(if h.levels == 0 { "flat-layout" } else { "sub-directories" });
+        if h.max_disk_bytes.is_some() || h.max_files.is_some() {
+            v.push("size-limit-configured");
+        }
         if h.reopen {
             v.push("second-put-by-new-instance");
         }
